@@ -68,8 +68,12 @@ def run(tier, seed, replay=None):
             "Min0Max3": {"type": "string", "minLength": 0, "maxLength": 3}, "EmptyPattern": {"type": "string", "pattern": ""},
             "Min1": {"type": "string", "minLength": 1}, "OneValue": {"type": "string", "enum": ["only"]},
             "NotOne": {"not": {"enum": ["x"]}}, "IntOne": {"type": "integer", "enum": [7]},
+            "Pad13": {"type": "array", "items": [{"type": "string"}, {"type": "boolean"}], "additionalItems": {"type": "integer"},
+                      "minItems": 13, "maxItems": 13},
+            "Pad12": {"type": "array", "items": [{"type": "string"}], "additionalItems": {"type": "integer"}, "minItems": 12, "maxItems": 12},
+            "Arr32": {"type": "array", "items": {"type": "integer"}, "minItems": 32, "maxItems": 32},
             "Fmt": {"type": "string", "format": "uuid", "minLength": 0}, "NullableMin0": {"type": ["string", "null"], "minLength": 0}}
-    for j, sub in enumerate([list(edge), ["Min0"], ["Max0", "Min0Max3"], ["EmptyPattern", "Min1", "OneValue"], ["NotOne", "IntOne", "Fmt"]]):
+    for j, sub in enumerate([list(edge), ["Min0"], ["Max0", "Min0Max3"], ["EmptyPattern", "Min1", "OneValue"], ["NotOne", "IntOne", "Fmt"], ["Pad13"], ["Pad12", "Arr32"]]):
         defs = {k_: edge[k_] for k_ in sub}
         defs["Holder"] = {"type": "object", "properties": {k_.lower(): dict(edge[k_]) for k_ in sub}}
         cid = "edge%02d" % j
